@@ -31,6 +31,11 @@ STATIC = ["next_id_monotone", "ids_increasing", "dec_inj", "decode_unique", "nam
     "repo_prefixes_digit_free", "window_order", "window_generic", "window_order_classes", "window_order_classes_exec",
     "cross_prefix_order_constant", "representatives_cover", "C03_partial", "C03_partial_pairwise"]
 
+# modules that once depended on the history (repaired in /repo): always part of the single-module exploration, with all offsets,
+# so that a regression is reported with the concrete counter state (DESIGN §3.2 "corpus of past disagreements, run first")
+CORPUS = ["symplyphysics.laws.optics.focal_length_of_a_concave_spherical_mirror",
+    "symplyphysics.laws.thermodynamics.volumetric_and_linear_expansion_coefficients_in_isotropic_materials"]
+
 WORKER = Path(__file__).resolve().parents[1] / "vp" / "c03_worker.py"
 NPROC = int(os.environ.get("VERIF_JOBS", "16"))
 RTOL = 1e-9
@@ -340,7 +345,7 @@ def run(ctx):
     ctx.coverage["module_observations_compared_whole_catalogue"] = compared
 
     # ---- (b) every selected module alone, counters at the representative states ----
-    chosen = modules if not ctx.quick else sorted(rng.sample(modules, max(1, len(modules) // 10)))
+    chosen = modules if not ctx.quick else sorted(set(rng.sample(modules, max(1, len(modules) // 10))) | (set(CORPUS) & set(modules)))
     slow = {n for n, o in refm.items() if o.get("import_s", 0) > 2.5}
     base_tasks = [[m, {}] for m in chosen]
     shards = [base_tasks[i::NPROC] for i in range(NPROC)]
@@ -371,7 +376,7 @@ def run(ctx):
             continue
         kmax = max(delta.values())
         offs = list(range(0, kmax + 1))
-        lim = 3 if name in slow else cap
+        lim = 3 if name in slow else (64 if name in CORPUS else cap)
         if len(offs) > lim:
             keep = {0, 1, kmax}
             keep |= set(rng.sample(offs, lim - 3)) if lim > 3 else set()
@@ -382,7 +387,7 @@ def run(ctx):
                 n_states += 1
         # leading-digit states: the module's names against names minted EARLIER (the 243 registry symbols, 27 constants):
         # their mutual lexicographic order depends on the leading digits of the counter, not only on digit-count boundaries
-        for _ in range(1 if name in slow else n_lead):
+        for _ in range(1 if name in slow else (10 if name in CORPUS else n_lead)):
             lead, e = rng.randrange(10, 100), rng.choice([2, 2, 3, 5])
             tasks.append([name, {p: lead * 10**e for p in delta}])
             n_states += 1
@@ -415,6 +420,8 @@ def run(ctx):
     known = {k for k, e in findings.load(ctx.prop).items() if e.get("status") == "known"}
     per_kind = {}
     not_listed = 0
+    # the smallest history first: a single module with pre-set counters is a better replay than a whole-catalogue run
+    diffs.sort(key=lambda d: 0 if str(d[0].get("tag", "")).startswith(("states", "alone")) else 1)
     for h, name, kind, item, a, b, obs in diffs:
         short = name.removeprefix("symplyphysics.")
         hist = describe_history(h)
